@@ -109,6 +109,7 @@ def run_property(pid, tier, replay=None, repo=None):
     t0 = time.time()
     seed = int(os.environ.get("VERIF_SEED", "0") or 0)
     prog = facts.load("default", repo or facts.REPO)
+    prog.repo = repo or facts.REPO
     rep = Report(pid, tier, prog)
     mod = importlib.import_module("zkverif.rules.%s" % pid.lower())
     try:
@@ -119,9 +120,12 @@ def run_property(pid, tier, replay=None, repo=None):
         tb = traceback.format_exc()
         rep.fail("engine", "exception", "the checker could not analyse the current tree (fail closed): %r" % (e,),
                  detail=tb[-1800:])
-    if tier == "thorough" and hasattr(mod, "run_thorough"):
+    if tier == "thorough":
         try:
-            mod.run_thorough(rep)
+            from . import thorough
+            thorough.run(rep)
+            if hasattr(mod, "run_thorough"):
+                mod.run_thorough(rep)
         except SystemExit:
             raise
         except Exception as e:
